@@ -60,6 +60,9 @@ LoadMatches(e, m, r) == /\ e = -1 \/ (e = 0 /\ r.ok) \/ (e = 1 /\ ~r.ok)
 LoadObserved(e, m, d) == \/ LoadMatches(e, m, Load(d))
                          \/ d.ex /\ d.hd = 1 /\ e \in {0, -1} /\ m = Empty
                          \/ TornRun(d) /\ LoadMatches(e, m, TornRunPrefix(d))
+                         \* a misplaced block lands on the first bytes of the data: the reader fails, or finds a
+                         \* garbage header that claims more than the file holds and stops with nothing
+                         \/ d.ex /\ d.hd = 2 /\ d.clob /\ e \in {0, -1} /\ m = Empty
 
 EntryOf(e) == [op |-> e.op, k |-> e.k, v |-> e.v, kc |-> e.kc, rep |-> e.rep, ak |-> e.ak, av |-> e.av]
 
